@@ -1,7 +1,7 @@
 PLAN = {
     "level": "exploration",
-    "quick": [replays("C10"), tape("C10", 60000, size=300)],
-    "thorough": [replays("C10"), tape("C10", 2000000, size=400)],
+    "quick": [replays("C10"), tape("C10", 160000, size=600)],
+    "thorough": [replays("C10"), tape("C10", 2000000, size=600)],
     "class_floors": {"top:model": 0.08, "top:component": 0.08, "top:variable": 0.04, "top:units": 0.05, "top:reset": 0.015, "top:import_source": 0.02,
                      "permuted-inside": 0.1, "irrelevant:equivalence-edit": 0.02, "irrelevant:outside-the-entity": 0.02, "depth:2": 0.05, "probe-known": 0.02},
 }
